@@ -696,9 +696,59 @@ class CallGraph:
                 return out
         return []
 
-    def reach(self, start_bodies, bound=None):
+    def channel_edges(self):
+        """message passing inside the workspace: a body that SENDS a value of a workspace type T on a channel may cause whatever a body
+        that RECEIVES from a channel of T does (a request enum handed to a worker thread / task).  Coarse (any variant, any receiver of
+        that type): used only where a may-reach answer is wanted, never for who-may-call prohibitions."""
+        if hasattr(self, '_chan_edges'):
+            return self._chan_edges
+
+        def payload(ty, what):
+            i = ty.find(what + '<')
+            if i < 0:
+                return None
+            inner = ty[i + len(what) + 1:]
+            depth = 1
+            for k, ch in enumerate(inner):
+                if ch == '<':
+                    depth += 1
+                elif ch == '>':
+                    depth -= 1
+                    if depth == 0:
+                        return strip_generics(inner[:k]).strip()
+            return None
+        senders, receivers = {}, {}
+        for b in self.facts.bodies.values():
+            if b.d['promoted']:
+                continue
+            for _blk, t in b.calls():
+                n = cname(t) or ''
+                seg = last_seg(n)
+                if not t.get('args'):
+                    continue
+                l = op_local(t['args'][0])
+                if l is None:
+                    continue
+                ty = b.local_ty(l)
+                if seg in ('send', 'send_async', 'try_send', 'blocking_send', 'send_timeout') and 'Sender<' in ty:
+                    p_ = payload(ty, 'Sender')
+                    if p_ and p_.startswith('datacake'):
+                        senders.setdefault(p_, set()).add(b.defp)
+                if seg in ('recv', 'recv_async', 'try_recv', 'blocking_recv', 'iter', 'into_iter', 'try_iter', 'next', 'recv_timeout', 'into_stream', 'stream') and 'Receiver<' in ty:
+                    p_ = payload(ty, 'Receiver')
+                    if p_ and p_.startswith('datacake'):
+                        receivers.setdefault(p_, set()).add(b.defp)
+        out = {}
+        for p_, ss in senders.items():
+            for s_ in ss:
+                out.setdefault(s_, set()).update(receivers.get(p_, ()))
+        self._chan_edges = out
+        return out
+
+    def reach(self, start_bodies, bound=None, channels=False):
         seen = {}
         work = [(b.defp, 0) for b in start_bodies]
+        ch = self.channel_edges() if channels else {}
         while work:
             d, depth = work.pop()
             if d in seen and seen[d] <= depth:
@@ -707,6 +757,8 @@ class CallGraph:
             if bound is not None and depth >= bound:
                 continue
             for n in self.edges.get(d, ()):
+                work.append((n, depth + 1))
+            for n in ch.get(d, ()):
                 work.append((n, depth + 1))
         return [self.facts.bodies[d] for d in seen if d in self.facts.bodies]
 
